@@ -201,6 +201,77 @@ def _is_invalidation_counter(ctx, w) -> bool:
     return bool(stamps)
 
 
+def _receiver_is_fresh_here(w: Write, ef) -> bool:
+    """An in-place edit through a local name that, at this point of the function, can only hold an object allocated in this call (`xs = cls._TABLE;
+    if xs is None: xs = []; xs.append(..)`): the flow-insensitive roots of the name include the shared location, its reaching definitions here do not."""
+    n = w.node
+    recv = None
+    for c in ast.walk(n):
+        if isinstance(c, ast.Call) and isinstance(c.func, ast.Attribute) and c.func.attr in MUTATORS and isinstance(c.func.value, ast.Name):
+            recv = c.func.value.id
+            break
+        if isinstance(c, ast.Subscript) and isinstance(c.ctx, (ast.Store, ast.Del)) and isinstance(c.value, ast.Name):
+            recv = c.value.id
+            break
+    if recv is None:
+        return False
+    f = w.func
+    g = cfg_of(f.node)
+    pm = ef._parent_map(f)
+    st = n
+    while st is not None and st not in g.node_of_stmt:
+        st = pm.get(st)
+    node = g.node_of_stmt.get(st)
+    if node is None:
+        return False
+    ds = dom.reaching_defs(g, recv, node)
+    if not ds or recv in f.params:
+        return False
+    fresh = (ast.List, ast.Dict, ast.Set, ast.ListComp, ast.DictComp, ast.SetComp)
+    for d in ds:
+        v = d.ast.value if isinstance(d.ast, ast.Assign) and len(d.ast.targets) == 1 and isinstance(d.ast.targets[0], ast.Name) else None
+        if not (isinstance(v, fresh) or isinstance(v, ast.Call) and isinstance(v.func, ast.Name) and v.func.id in ('list', 'dict', 'set') and
+                not any(isinstance(x, ast.Attribute) for a in v.args for x in ast.walk(a))):
+            return False
+    return True
+
+
+def keyed_publish_ok(w: Write, ef):
+    """`Cls.TABLE[key] = obj` on a class-level dictionary used as a registry of lazily built tables: accepted when it has the fill-then-publish shape per
+    key - obj is a local that, at the store, can only hold an object allocated in this call (filled before), the store is guarded by a lookup of the same
+    table, the object is not edited after the store, and neither key nor object depend on call arguments other than the receiver's class-level data.
+    Returns (ok, reason)."""
+    st = w.node
+    if not (isinstance(st, ast.Assign) and len(st.targets) == 1 and isinstance(st.targets[0], ast.Subscript) and isinstance(st.targets[0].value, ast.Attribute)
+            and isinstance(st.value, ast.Name)):
+        return False, 'not `Class.TABLE[key] = <local>`'
+    table = st.targets[0].value.attr
+    f = w.func
+    g = cfg_of(f.node)
+    node = g.node_of_stmt.get(st)
+    if node is None:
+        return False, 'statement not found'
+    ds = dom.reaching_defs(g, st.value.id, node)
+    fresh = (ast.List, ast.Dict, ast.Set, ast.ListComp, ast.DictComp, ast.SetComp)
+    if not ds or not all(isinstance(d.ast, ast.Assign) and isinstance(d.ast.value, fresh) for d in ds):
+        return False, f"`{st.value.id}` may hold an object that is already published"
+    guards = [unparse(dom.expand(g, t.ast, t)) for t, lab in dom.guards_of(g, node) if t.kind == 'test']
+    if not any(f".{table}" in txt for txt in guards):
+        return False, f"not guarded by a lookup of {table}"
+    params = set(f.params[1:]) if f.cls is not None and not f.is_staticmethod else set(f.params)
+    used = {n.id for n in ast.walk(st.targets[0].slice) if isinstance(n, ast.Name)}
+    if used & params:
+        return False, f"the key depends on call argument(s) {sorted(used & params)}"
+    for n in g.reachable(node) - {node}:
+        for e in n.exprs():
+            for c in walk_local(e):
+                if isinstance(c, ast.Call) and isinstance(c.func, ast.Attribute) and c.func.attr in MUTATORS and unparse(c.func.value) == st.value.id:
+                    return False, f"`{short(c, 50)}` edits the table after it was published"
+                if isinstance(c, ast.Subscript) and isinstance(c.ctx, (ast.Store, ast.Del)) and unparse(c.value) == st.value.id:
+                    return False, f"`{short(c, 50)}` edits the table after it was published"
+    return True, ''
+
+
 def check_shared_state(ctx, cg, ef, rule: str, entries=None):
     """Every shared write of the API closure is one of the enumerated lazy caches and has the publish shape."""
     res = ctx.res
@@ -214,11 +285,19 @@ def check_shared_state(ctx, cg, ef, rule: str, entries=None):
                 ck = cache_key(w)
                 if ck is None and not (set(w.owners) & {'XSDTree'}):
                     continue
+        if w.how != 'store' and _receiver_is_fresh_here(w, ef):
+            continue            # the edited object was allocated in this call and is not published yet
         ck = cache_key(w)
         if ck is None:
             owners = '/'.join(sorted(w.owners)) or w.root
             if w.func.name == '__init__' and w.root == 'self':
                 continue       # a constructor initialising its own object
+            if w.how == 'store[]' and w.root == 'class':
+                ok_k, why_k = keyed_publish_ok(w, ef)
+                if ok_k:
+                    res.ok(rule, w.func.fq, f"`{short(w.node, 60)}` registers a complete, freshly built table under a key of a class-level registry (fill, then publish; "
+                           "guarded by a lookup of the registry; not edited afterwards)")
+                    continue
             if _is_invalidation_counter(ctx, w):
                 res.ok(rule, w.func.fq, f"`{short(w.node, 50)}` bumps a counter that is only ever compared with memo stamps (it can invalidate memos of other instances, "
                        "never change what they compute)")
